@@ -7,6 +7,7 @@ import (
 	"runtime"
 	"sort"
 	"strings"
+	"sync"
 
 	"golang.org/x/tools/go/ssa"
 )
@@ -33,6 +34,122 @@ func (g *Gen) newExec(fn *ssa.Function, con *Contract) *Exec {
 		exit: map[*ssa.BasicBlock]*State{}, edge: map[[2]int]string{}, locals: map[*ssa.Alloc]string{}, callN: map[string]int{}, safeN: map[string]int{}}
 }
 
+// cmdSweep: zero-annotation sweep of every function that creates a value of a type with a
+// creation invariant (createinv): which creation sites are provably canonical without contracts?
+func cmdSweep(args []string) {
+	fs := flag.NewFlagSet("sweep", flag.ExitOnError)
+	repo := fs.String("repo", "/repo", "repository root")
+	timeout := fs.Int("timeout", 10, "per-obligation timeout (s)")
+	only := fs.String("func", "", "substring filter")
+	fs.Parse(args)
+	g, err := loadAll(*repo)
+	if err != nil {
+		fmt.Fprintln(os.Stderr, "CANNOT-CHECK:", err)
+		os.Exit(2)
+	}
+	frs := g.verifyAll(g.sweepContracts(*only))
+	dir, _ := os.MkdirTemp("", "gvc-smt-")
+	defer os.RemoveAll(dir)
+	var obs []*Oblig
+	pres := map[*Exec][2]string{}
+	for _, fr := range frs {
+		if fr.Ex != nil {
+			pres[fr.Ex] = [2]string{fr.Pre, fr.PreExact}
+		}
+		for _, o := range fr.Obligs {
+			if o.Kind == "create" || o.Kind == "pre" {
+				obs = append(obs, o)
+			}
+		}
+	}
+	solveAll(obs, pres, *timeout, 16, false, dir)
+	nOK := 0
+	for _, fr := range frs {
+		for _, u := range fr.Unsupported {
+			fmt.Printf("UNSUPPORTED %s: %s\n", fr.Name, strings.SplitN(u, "\n", 2)[0])
+		}
+		for _, o := range fr.Obligs {
+			if o.Kind != "create" && o.Kind != "pre" {
+				continue
+			}
+			if o.Res.Status == "unsat" {
+				nOK++
+				continue
+			}
+			fmt.Printf("%-8s %s (%s) %s\n", o.Res.Status, o.Name, o.Pos, strings.ReplaceAll(o.Res.Model, "\n", " "))
+			if o.Res.Status == "error" {
+				out := o.Res.Output
+				if len(out) > 300 {
+					out = out[:300]
+				}
+				fmt.Printf("    %s\n", strings.ReplaceAll(out, "\n", " "))
+			}
+		}
+	}
+	fmt.Printf("sweep: %d functions, %d creation sites, %d proved canonical without any contract\n", len(frs), len(obs), nOK)
+}
+
+// sweepContracts: synthetic empty contracts (sweep mode) for every function without contract that
+// creates a value of a type with a creation invariant.
+func (g *Gen) sweepContracts(only string) []*Contract {
+	var out []*Contract
+	var names []string
+	for k := range g.funcs {
+		names = append(names, k)
+	}
+	sort.Strings(names)
+	for _, k := range names {
+		fn := g.funcs[k]
+		if fn.Pkg == nil || g.contracts[fn] != nil || fn.Synthetic != "" || !strings.Contains(k, only) {
+			continue
+		}
+		if f := g.prog.Fset.File(fn.Pos()); f == nil || strings.Contains(f.Name(), "zz_verif_") || strings.HasSuffix(f.Name(), "_test.go") || !strings.HasPrefix(f.Name(), g.repo) {
+			continue
+		}
+		has := false
+		for _, b := range fn.Blocks {
+			for _, in := range b.Instrs {
+				if mi, ok := in.(*ssa.MakeInterface); ok && g.createInv[typeKey(mi.X.Type())] != nil {
+					has = true
+				}
+				if c, ok := in.(*ssa.Call); ok {
+					if cal := c.Common().StaticCallee(); cal != nil {
+						if cc := g.contracts[cal]; cc != nil && len(cc.Requires) > 0 && sweepProp(cc) {
+							has = true
+						}
+					}
+				}
+			}
+		}
+		if !has {
+			continue
+		}
+		out = append(out, &Contract{Func: fn.RelString(fn.Pkg.Pkg), Fn: fn, Flags: map[string]bool{"sweep": true}, Loops: map[int]*LoopSpec{}})
+	}
+	return out
+}
+
+// sweepProp: call sites of this contracted function are swept for its preconditions.
+func sweepProp(cc *Contract) bool { return cc.Flags["sweep-callers"] }
+
+// verifyAll generates the VCs of many functions in parallel.
+func (g *Gen) verifyAll(cs []*Contract) []*FuncResult {
+	out := make([]*FuncResult, len(cs))
+	sem := make(chan struct{}, 12)
+	var wg sync.WaitGroup
+	for i, c := range cs {
+		wg.Add(1)
+		sem <- struct{}{}
+		go func(i int, c *Contract) {
+			defer wg.Done()
+			defer func() { <-sem }()
+			out[i] = g.verifyFunc(c)
+		}(i, c)
+	}
+	wg.Wait()
+	return out
+}
+
 func (g *Gen) verifyFunc(con *Contract) *FuncResult {
 	fr := &FuncResult{Name: con.Func, Con: con}
 	if len(con.Errors) > 0 {
@@ -44,6 +161,7 @@ func (g *Gen) verifyFunc(con *Contract) *FuncResult {
 		return fr
 	}
 	ex := g.newExec(con.Fn, con)
+	ex.sweep = con.Flags["sweep"]
 	fr.Ex = ex
 	func() {
 		defer func() {
@@ -77,6 +195,8 @@ func main() {
 		cmdCheck(os.Args[2:])
 	case "replay":
 		cmdReplay(os.Args[2:])
+	case "sweep":
+		cmdSweep(os.Args[2:])
 	case "overlay":
 		g, err := loadAll("/repo")
 		if g != nil {
@@ -113,6 +233,14 @@ func cmdVerify(args []string) {
 	}
 	var frs []*FuncResult
 	for _, c := range g.cs.All {
+		if c.IsIface && !c.Flags["trusted"] {
+			for _, d := range g.ifaceImpls(c) {
+				if *fnPat == "" || strings.Contains(d.Func, *fnPat) || strings.Contains(c.Func, *fnPat) {
+					frs = append(frs, g.verifyFunc(d))
+				}
+			}
+			continue
+		}
 		if c.IsIface || c.Flags["trusted"] || c.Flags["pure"] || c.Flags["uninterpreted"] {
 			continue
 		}
